@@ -9,7 +9,7 @@ META = {
     "rule": "addresses generated from the grammar: file types N, B, F, L (files 3,7,8,9,10,11,254,255), S, I, O, and T/C sub-elements on reads; "
     "elements {0,1,15,16,254,255} (+ every element for one file per type in thorough); every bit 0..15 of the word forms; EVERY "
     "binary-file bit number 0..4095 (Bf/n); {count} in {1,2,3,max}; upper/lower case; I/O slot.word forms; invalid addresses: file "
-    "numbers 0/256/1000, elements 256/1000, bits 16/99, Bf/4096, unsupported letters, trailing garbage. Values: boundary set of the "
+    "numbers 0/256/1000, elements 256/300/1000, bits 16/99 in every address form and letter case (one field out of range at a time), Bf/4096, unsupported letters, trailing garbage. Values: boundary set of the "
     "element type (all 65536 words for one N address in thorough). Two data-table images with address-derived contents. Oracle: "
     "reference address parser + reference data table: read value == table content at (file, element, sub-element, bit); the PCCC "
     "command names the parsed file number and type; a write changes exactly the addressed words/bit of the whole table and reads "
@@ -227,6 +227,36 @@ def addresses(tier):
 INVALID = ["N0:0", "N256:0", "N1000:0", "N7:256", "N7:1000", "N7:0/16", "N7:0/99", "B3/4096", "B3/10000", "B0/1", "B256/1", "X7:0", "Q1:0", "N7", "N7:", ":0", "",
            "N7:0/", "N7:0x", "xN7:0", "N7:0{2}junk", "N7:-1", "N7:1.5", "S:256", "S:1/16", "B3:0/16", "F8:256", "L11:1000", "T4:0.XYZ", "T4:256.ACC", "C5:0.", "7:0", "NN7:0",
            "N7 :0", "N7:0 ", " N7:0"]
+
+
+def _gen_invalid():
+    """Every address form with exactly one numeric field pushed out of range (both letter cases)."""
+    out = []
+    badf, bade, badb = (0, 256, 1000), (256, 300, 1000), (16, 99)
+    for typ, f in (("N", 7), ("B", 3), ("F", 8), ("L", 11)):
+        for x in badf:
+            out += [f"{typ}{x}:0", f"{typ}{x}:0/1", f"{typ}{x}:0{{2}}"]
+        for x in bade:
+            out += [f"{typ}{f}:{x}", f"{typ}{f}:{x}/1", f"{typ}{f}:{x}{{2}}"]
+        for x in badb:
+            out += [f"{typ}{f}:0/{x}", f"{typ}{f}:255/{x}"]
+    for x in bade:
+        out += [f"S:{x}", f"S:{x}/1", f"S:{x}{{2}}"]
+    out += [f"S:0/{x}" for x in badb]
+    for typ in "IO":
+        for x in bade:
+            out += [f"{typ}:{x}", f"{typ}:{x}.0", f"{typ}:{x}/1", f"{typ}:{x}.0/1"]
+        for x in badb:
+            out += [f"{typ}:1/{x}", f"{typ}:1.0/{x}"]
+    for x in badf:
+        out += [f"B{x}/1", f"T{x}:0.ACC", f"C{x}:0.PRE"]
+    for x in bade:
+        out += [f"T4:{x}.ACC", f"T4:{x}.PRE", f"C5:{x}.ACC", f"T4:{x}.DN"]
+    out += ["B3/4096", "B10/4096", "B3/65536"]
+    return out + [a.lower() for a in out]
+
+
+INVALID = list(dict.fromkeys(INVALID + _gen_invalid()))
 
 
 def values_for(a, tier, text):
